@@ -8,6 +8,7 @@ use crate::bridge::{self, AffinePoint};
 use ark_ec::models::short_weierstrass::SWFlags;
 use ark_ec::models::twisted_edwards::TEFlags;
 use ark_ec::{AffineRepr, CurveGroup, Group, ScalarMul};
+use std::str::FromStr;
 use ark_ff::{One, PrimeField, UniformRand, Zero};
 use ark_serialize::{
     CanonicalDeserialize, CanonicalDeserializeWithFlags, CanonicalSerialize,
@@ -992,6 +993,38 @@ fn build_fpool(ctx: &mut Ctx, run: &IoRun) -> Vec<FEntry> {
                         ),
                     );
                 }
+                // decimal text: Display denotes the same integer (the pinned code prints zero as the empty
+                // string; both "" and "0" are taken for zero) and FromStr reads it back
+                let text = catch_unwind(AssertUnwindSafe(|| match &v {
+                    FVal::Fq(x) => (x.to_string(), Fq::from_str(&x.to_string()).ok().map(|y| y == *x)),
+                    FVal::Fr(x) => (x.to_string(), Fr::from_str(&x.to_string()).ok().map(|y| y == *x)),
+                    FVal::Fp(x) => (x.to_string(), Fp::from_str(&x.to_string()).ok().map(|y| y == *x)),
+                }));
+                ctx.out.steps += 1;
+                match text {
+                    Ok((t, back)) => {
+                        let want = got.to_string();
+                        let zero_ok = got == BigUint::from(0u32) && (t.is_empty() || t == "0");
+                        if t != want && !zero_ok {
+                            ctx.viol(
+                                "C11",
+                                "decimal_text",
+                                format!("field={:?} op=display", fop.which),
+                                format!("Display prints {:?} for the integer {}", t, want),
+                            );
+                        } else if got != BigUint::from(0u32) && back != Some(true) {
+                            ctx.viol(
+                                "C11",
+                                "decimal_text",
+                                format!("field={:?} op=display_then_from_str", fop.which),
+                                format!("FromStr(Display(x)) of {} gave {:?}", want, back),
+                            );
+                        } else {
+                            ctx.probe("decimal_text_matched_reference");
+                        }
+                    }
+                    Err(p) => ctx.viol("C11", "panic", format!("field={:?} op=display", fop.which), panic_msg(p)),
+                }
                 fpool.push(FEntry { v, model });
             }
             Ok(None) => {
@@ -1734,7 +1767,52 @@ fn recv_field<F: SimField, R: std::io::Read>(flag: FlagV, r: R) -> Result<RVal, 
     })
 }
 
+thread_local! {
+    /// the elements this run's receiver obtained from streams, in arrival order (a run has its own thread)
+    static RECEIVED_ELEMS: std::cell::RefCell<Vec<Element>> = std::cell::RefCell::new(Vec::new());
+}
+
+/// Echo phase: a node that has received records forwards what it received. The elements come straight out
+/// of the decoder (Z = 1, the decoder's own representative) and are encoded again on the same thread, the
+/// most recently received first, after whatever the decoder did last (possibly refusing a record).
+fn echo_received(ctx: &mut Ctx) {
+    let elems: Vec<Element> = RECEIVED_ELEMS.with(|r| std::mem::take(&mut *r.borrow_mut()));
+    for e in elems.iter().rev().take(16) {
+        let pt = match bridge::elem_to_pt(e) {
+            Some(p) if rd::valid_representative_cheap(&p).is_ok() => p,
+            _ => continue,
+        };
+        let want = match rd::encode(&pt) {
+            Some(w) => w,
+            None => continue,
+        };
+        let e2 = *e;
+        ctx.out.steps += 1;
+        match catch_unwind(AssertUnwindSafe(move || e2.vartime_compress().0)) {
+            Ok(got) => {
+                if got != want {
+                    ctx.viol(
+                        "C03",
+                        "ser_bytes",
+                        "op=echo shape=Element fault=false".into(),
+                        format!("a received element forwarded by its receiver encodes to {} but the specification says {}", hex(&got), hex(&want)),
+                    );
+                } else {
+                    ctx.probe("received_element_forwarded_with_same_bytes");
+                }
+            }
+            Err(p) => ctx.viol("C03", "panic", "op=echo".into(), panic_msg(p)),
+        }
+    }
+}
+
 fn elem_rval(e: &Element) -> RVal {
+    RECEIVED_ELEMS.with(|r| {
+        let mut v = r.borrow_mut();
+        if v.len() < 64 {
+            v.push(*e);
+        }
+    });
     RVal::Pt(bridge::elem_to_pt(e).unwrap_or(Pt {
         x: BigUint::from(0u32),
         y: BigUint::from(0u32),
@@ -2219,6 +2297,34 @@ fn receive_all(ctx: &mut Ctx, run: &IoRun, segs: &[Seg]) -> Vec<Received> {
                     }
                     Exp::Invalid(reason) => {
                         ctx.probe("stream_rejected_invalid_record");
+                        // a record refused for its content must still have been consumed whole: a consumer that
+                        // goes on to the next record on the same reader (every other entry shape allows it)
+                        // would otherwise read it from the middle of the refused one
+                        let fixed = match &seg.shape {
+                            Shape::Elem(_) => Some(32usize),
+                            Shape::Field(w, _) => Some(wire::fld(*w).nbytes),
+                            _ => None,
+                        };
+                        if let Some(n) = fixed {
+                            if !io_faults_in_extent && flat.len() >= base + n {
+                                if endpos != base + n {
+                                    let prop = if seg.shape.has_elem() { "C02" } else { "C11" };
+                                    ctx.viol(
+                                        prop,
+                                        "framing_after_reject",
+                                        format!("op=deserialize shape={} class={}", shape_name, reason),
+                                        format!(
+                                            "the refused {}-byte record was left after {} bytes: the next record on this reader is read from offset {} of the refused one",
+                                            n,
+                                            endpos - base,
+                                            endpos - base
+                                        ),
+                                    );
+                                } else {
+                                    ctx.probe("refused_record_consumed_whole");
+                                }
+                            }
+                        }
                         let kind_ok = matches!(
                             e,
                             SerializationError::InvalidData | SerializationError::UnexpectedFlags
@@ -2572,7 +2678,9 @@ pub fn execute(run: &IoRun, logging: bool) -> Outcome {
     let fpool = build_fpool(&mut ctx, run);
     let mut segs = send_all(&mut ctx, run, &pool, &fpool);
     apply_channel(&mut ctx, run, &mut segs);
+    RECEIVED_ELEMS.with(|r| r.borrow_mut().clear());
     let received = receive_all(&mut ctx, run, &segs);
+    echo_received(&mut ctx);
     datagrams(&mut ctx, run);
     uncompressed(&mut ctx, run);
     history_checks(&mut ctx, &received);
